@@ -989,6 +989,18 @@ fn decode_at<'tcx>(tcx: TyCtxt<'tcx>, aid: mir::interpret::AllocId, off: usize, 
                 _ => decode_at(tcx, target, toff, *inner, depth + 1),
             }
         }
+        // Option<&T>: null-pointer niche - None is the null (provenance-free) pointer, Some(r) is r in place
+        ty::Adt(def, args) if tcx.is_diagnostic_item(rustc_span::sym::Option, def.did()) && matches!(args.type_at(0).kind(), ty::Ref(..)) => {
+            let inner = args.type_at(0);
+            if prov_at(off).is_none() {
+                return match read_uint(off, ptr_size) {
+                    Some(0) => J::Obj(vec![("variant".into(), J::s("None"))]),
+                    _ => opaque("non-null pointer without provenance"),
+                };
+            }
+            let v = decode_at(tcx, aid, off, inner, depth + 1);
+            J::Obj(vec![("variant".into(), J::s("Some")), ("0".into(), v)])
+        }
         _ => opaque("unsupported type"),
     }
 }
